@@ -472,6 +472,19 @@ class TaintInterp:
             if t is False:
                 return self.ev(e.orelse, fr)
             return add_labels(join(self.ev(e.body, fr), self.ev(e.orelse, fr)), labels(c))
+        if isinstance(e, (ast.ListComp, ast.GeneratorExp, ast.SetComp)) and len(e.generators) == 1 and not e.generators[0].ifs:
+            it0 = self.ev(e.generators[0].iter, fr)
+            seq0 = None
+            if isinstance(it0, TTup) or (isinstance(it0, TLst) and it0.extra is None):
+                seq0 = list(it0.items)
+            if seq0 is not None and len(seq0) <= 16:
+                saved = copy_env(fr.env)
+                out = []
+                for v in seq0:
+                    self.assign(e.generators[0].target, v, fr)
+                    out.append(self.ev(e.elt, fr))
+                fr.env = saved
+                return TLst(out) if not isinstance(e, ast.GeneratorExp) else TTup(out)
         if isinstance(e, (ast.ListComp, ast.GeneratorExp, ast.SetComp)):
             saved = copy_env(fr.env)
             l = EMPTY
